@@ -3,6 +3,7 @@ package yubiattest
 //vsym:pkg github.com/theparanoids/ysshra/attestation/yubiattest
 //vsym:entry H16_pubkey
 //vsym:entry H16_sigalg
+//vsym:entry H16_fields
 //vsym:model encoding/asn1.Unmarshal m16pUnmarshal
 //vsym:model-re ^\(\*crypto/ecdh\.nistCurve\[.*\]\)\.NewPublicKey(\[.*\])?$ m16pNewPublicKey
 //vsym:model (*crypto/ecdh.PublicKey).Bytes m16pBytes
@@ -14,9 +15,10 @@ package yubiattest
 //vsym:model crypto/elliptic.P384 m16pP384
 //vsym:model crypto/elliptic.P521 m16pP521
 //vsym:replay none
-//vsym:expect-cover C16.pk.rsa-ok C16.pk.rsa-bad-modulus C16.pk.rsa-bad-exponent C16.pk.rsa-trailing C16.pk.p256 C16.pk.p384 C16.pk.p521 C16.pk.unknown-curve C16.sa.table C16.sa.pss-ok C16.sa.pss-refused
+//vsym:expect-cover C16.pk.rsa-ok C16.pk.rsa-bad-modulus C16.pk.rsa-bad-exponent C16.pk.rsa-trailing C16.pk.p256 C16.pk.p384 C16.pk.p521 C16.pk.unknown-curve C16.sa.table C16.sa.pss-ok C16.sa.pss-refused C16.f.ok C16.f.trailing C16.f.undecodable C16.f.bad-name C16.f.bad-extension C16.f.unhandled-critical C16.f.key-usage C16.f.basic-constraints C16.f.padded-signature
 //vsym:bound H16_pubkey: RSA: modulus sign and exponent symbolic, trailing data or not, decoder failure; ECDSA: named curve P-256 / P-384 / P-521 / unknown, trailing parameter data or not, every byte of the uncompressed point symbolic (lengths 65 / 97 / 133 per the ecdh contract), point rejected or not
 //vsym:bound H16_sigalg: algorithm OID any row of an independently written table or unknown; RSA-PSS parameters: hash OID SHA-256/384/512/other, NULL or other hash parameters, MGF OID MGF1 or other, MGF hash equal or not, salt length and trailer field symbolic
+//vsym:bound H16_fields: ParseCertificate on a decoded certificate structure with symbolic raw byte strings (1 byte each), version, validity instants, a signature bit string of 1..3 symbolic bytes with 0..7 padding bits, an RSA key, every signature-algorithm row, and 0..2 extensions drawn from key usage (all 16 bits symbolic), basic constraints, subject / authority key identifier, extended key usage (one known, one unknown purpose), policies, a vendor extension and an unknown critical extension; decoder failure or trailing data at the top level, in a name or in an extension value
 //vsym:assume encoding/asn1 and crypto/ecdh are modelled by their contracts (the reflection-driven decoder and the curve arithmetic are not executed): Unmarshal fills the destination with harness-chosen values or fails; NewPublicKey returns a key whose Bytes() is the validated uncompressed point; field-by-field agreement with crypto/x509 on whole certificates is not decided
 
 import (
@@ -29,6 +31,7 @@ import (
 	"encoding/asn1"
 	"errors"
 	"math/big"
+	"time"
 )
 
 // ---- models ------------------------------------------------------------------
@@ -80,6 +83,46 @@ func m16pUnmarshal(b []byte, val interface{}) ([]byte, error) {
 		}
 		*v = w16PSS.params
 		return nil, nil
+	case *certificate:
+		if w16Top.fail {
+			return nil, errors.New("model: asn1 error")
+		}
+		*v = *w16Top.cert
+		if w16Top.trailing {
+			return []byte{0}, nil
+		}
+		return nil, nil
+	case *pkix.RDNSequence:
+		if w16Name.fail {
+			return nil, errors.New("model: asn1 error")
+		}
+		cn := "cn-subject"
+		if len(b) == 2 && b[1] == 'i' {
+			cn = "cn-issuer"
+		}
+		*v = pkix.RDNSequence{pkix.RelativeDistinguishedNameSET{pkix.AttributeTypeAndValue{Type: asn1.ObjectIdentifier{2, 5, 4, 3}, Value: cn}}}
+		if w16Name.trailing {
+			return []byte{0}, nil
+		}
+		return nil, nil
+	case *asn1.BitString:
+		*v = w16Ext.usage
+		return w16ExtRest()
+	case *basicConstraints:
+		*v = w16Ext.bc
+		return w16ExtRest()
+	case *[]byte:
+		*v = append([]byte(nil), w16Ext.keyid...)
+		return w16ExtRest()
+	case *authKeyId:
+		v.Id = append([]byte(nil), w16Ext.keyid...)
+		return w16ExtRest()
+	case *[]asn1.ObjectIdentifier:
+		*v = []asn1.ObjectIdentifier{{1, 3, 6, 1, 5, 5, 7, 3, 2}, {1, 2, 3, 4, 5}}
+		return w16ExtRest()
+	case *[]policyInformation:
+		*v = []policyInformation{{Policy: asn1.ObjectIdentifier{2, 23, 140, 1, 1}}, {Policy: asn1.ObjectIdentifier{1, 2, 3}}}
+		return w16ExtRest()
 	case *pkix.AlgorithmIdentifier:
 		if w16PSS.mgfFail {
 			return nil, errors.New("model: asn1 error")
@@ -88,6 +131,28 @@ func m16pUnmarshal(b []byte, val interface{}) ([]byte, error) {
 		return nil, nil
 	}
 	panic("m16pUnmarshal: unexpected destination")
+}
+
+var w16Top struct {
+	fail, trailing bool
+	cert           *certificate
+}
+var w16Name struct{ fail, trailing bool }
+var w16Ext struct {
+	fail, trailing bool
+	usage          asn1.BitString
+	bc             basicConstraints
+	keyid          []byte
+}
+
+func w16ExtRest() ([]byte, error) {
+	if w16Ext.fail {
+		return nil, errors.New("model: asn1 error")
+	}
+	if w16Ext.trailing {
+		return []byte{0}, nil
+	}
+	return nil, nil
 }
 
 func m16pNewPublicKey(c ecdh.Curve, key []byte) (*ecdh.PublicKey, error) {
@@ -290,6 +355,226 @@ func H16_sigalg() {
 	if want != x509.UnknownSignatureAlgorithm {
 		vReach("C16.sa.pss-ok")
 	} else {
-		vReach("C16.sa.pss-refused")
+		vReach("C16.sa.pss-refused C16.f.ok C16.f.trailing C16.f.undecodable C16.f.bad-name C16.f.bad-extension C16.f.unhandled-critical C16.f.key-usage C16.f.basic-constraints C16.f.padded-signature")
 	}
+}
+
+
+// ---- the certificate as a whole -----------------------------------------------------
+
+var s16OIDRSA = asn1.ObjectIdentifier{1, 2, 840, 113549, 1, 1, 1}
+
+// s16RightAlign: the signature value is the bit string read as an integer:
+// with p padding bits the bytes are shifted right by p (X.690 8.6, RFC 5280 4.1.1.3)
+func s16RightAlign(b []byte, bitLength int) []byte {
+	p := uint(8 - bitLength%8)
+	if p == 8 {
+		return b
+	}
+	out := make([]byte, len(b))
+	for i := range b {
+		out[i] = b[i] >> p
+		if i > 0 {
+			out[i] |= b[i-1] << (8 - p)
+		}
+	}
+	return out
+}
+
+func H16_fields() {
+	in := &certificate{}
+	in.Raw = asn1.RawContent(vNondetBytes("raw", 1))
+	in.TBSCertificate.Raw = asn1.RawContent(vNondetBytes("raw-tbs", 1))
+	in.TBSCertificate.PublicKey.Raw = asn1.RawContent(vNondetBytes("raw-spki", 1))
+	in.TBSCertificate.Subject.FullBytes = []byte{0x30, 's'}
+	in.TBSCertificate.Issuer.FullBytes = []byte{0x30, 'i'}
+	ver := vNondetInt("version")
+	vAssume(vAnd(ver >= 0, ver <= 2))
+	in.TBSCertificate.Version = ver
+	serial := new(big.Int)
+	in.TBSCertificate.SerialNumber = serial
+	nb, na := time.Unix(vNondetI64("not-before")&0xffffffff, 0), time.Unix(vNondetI64("not-after")&0xffffffff, 0)
+	in.TBSCertificate.Validity = validity{NotBefore: nb, NotAfter: na}
+	// the factors are swept one at a time (parseCertificate treats them independently)
+	focus := vChoose(4, "focus") // 0 signature value, 1 signature algorithm, 2 extensions, 3 faults
+	row := s16SigAlgs[4]
+	if focus == 1 {
+		row = s16SigAlgs[vChoose(len(s16SigAlgs), "algorithm")]
+	}
+	in.TBSCertificate.SignatureAlgorithm = pkix.AlgorithmIdentifier{Algorithm: row.oid}
+	in.SignatureAlgorithm = in.TBSCertificate.SignatureAlgorithm
+	nsig, pad := 2, 0
+	if focus == 0 {
+		nsig, pad = 1+vChoose(3, "signature-bytes"), vChoose(8, "signature-padding-bits")
+	}
+	sig := vNondetBytes("signature", nsig)
+	if pad > 0 {
+		// a conforming encoder leaves the padding bits zero
+		vAssume(sig[nsig-1]&byte(1<<uint(pad)-1) == 0)
+		vReach("C16.f.padded-signature")
+	}
+	in.SignatureValue = asn1.BitString{Bytes: sig, BitLength: 8*nsig - pad}
+	// an RSA key (the key itself is the subject of H16_pubkey)
+	in.TBSCertificate.PublicKey.Algorithm.Algorithm = s16OIDRSA
+	in.TBSCertificate.PublicKey.PublicKey = asn1.BitString{Bytes: []byte{1, 2}, BitLength: 16}
+	w16RSA.n, w16RSA.e, w16Sign = new(big.Int), 65537, 1
+	// extensions
+	vendor := asn1.ObjectIdentifier{1, 3, 6, 1, 4, 1, 41482, 3, 7}
+	kinds := []struct {
+		id       asn1.ObjectIdentifier
+		critical bool
+	}{
+		{asn1.ObjectIdentifier{2, 5, 29, 15}, true},
+		{asn1.ObjectIdentifier{2, 5, 29, 19}, true},
+		{asn1.ObjectIdentifier{2, 5, 29, 14}, false},
+		{asn1.ObjectIdentifier{2, 5, 29, 35}, false},
+		{asn1.ObjectIdentifier{2, 5, 29, 37}, false},
+		{asn1.ObjectIdentifier{2, 5, 29, 32}, false},
+		{vendor, false},
+		{asn1.ObjectIdentifier{2, 5, 29, 99}, true},
+		{asn1.ObjectIdentifier{1, 2, 3, 4, 5, 6}, true},
+	}
+	var chosen []int
+	switch focus {
+	case 2:
+		if n := vChoose(3, "extensions"); n > 0 {
+			k := vChoose(len(kinds), "extension-kind")
+			chosen = []int{k}
+			if n == 2 {
+				// a second, different extension after or before it
+				k2 := (k + 1 + vChoose(2, "second-kind")*5) % len(kinds)
+				if vChoose(2, "second-first") == 1 {
+					chosen = []int{k2, k}
+				} else {
+					chosen = []int{k, k2}
+				}
+			}
+		}
+	case 3:
+		chosen = [][]int{nil, {0}, {6}, {1, 8}}[vChoose(4, "extensions")]
+	}
+	for _, k := range chosen {
+		in.TBSCertificate.Extensions = append(in.TBSCertificate.Extensions,
+			pkix.Extension{Id: kinds[k].id, Critical: kinds[k].critical, Value: vNondetBytes("extension-value", 1)})
+	}
+	ub := vNondetBytes("key-usage-bits", 2)
+	w16Ext.usage = asn1.BitString{Bytes: ub, BitLength: 9 + vChoose(2, "key-usage-long")*7}
+	w16Ext.bc = basicConstraints{IsCA: vNondetBool("is-ca"), MaxPathLen: vNondetInt("max-path-len")}
+	w16Ext.keyid = vNondetBytes("key-id", 2)
+	// faults
+	fault := 0
+	if focus == 3 {
+		fault = 1 + vChoose(6, "fault")
+	}
+	switch fault {
+	case 1:
+		w16Top.fail = true
+	case 2:
+		w16Top.trailing = true
+	case 3:
+		w16Name.fail = true
+	case 4:
+		w16Name.trailing = true
+	case 5:
+		w16Ext.fail = true
+	case 6:
+		w16Ext.trailing = true
+	}
+	w16Top.cert = in
+
+	var out *x509.Certificate
+	var err error
+	crashed := vCatch(func() { out, err = ParseCertificate([]byte{0x30, 0}) })
+	vAssert(!crashed, "C16.parser-never-crashes")
+	if crashed {
+		return
+	}
+	decodesValue := false // does any chosen extension have its value decoded
+	for _, k := range chosen {
+		if k <= 5 {
+			decodesValue = true
+		}
+	}
+	switch {
+	case w16Top.fail:
+		vAssert(err != nil, "C16.undecodable-certificate-rejected")
+		vReach("C16.f.undecodable")
+		return
+	case w16Top.trailing:
+		vAssert(err != nil, "C16.trailing-data-rejected")
+		vReach("C16.f.trailing")
+		return
+	case w16Name.fail || w16Name.trailing:
+		vAssert(err != nil, "C16.malformed-name-rejected")
+		vReach("C16.f.bad-name")
+		return
+	case (w16Ext.fail || w16Ext.trailing) && decodesValue:
+		vAssert(err != nil, "C16.malformed-extension-value-rejected")
+		vReach("C16.f.bad-extension")
+		return
+	}
+	vAssert(err == nil && out != nil, "C16.well-formed-certificate-accepted")
+	if err != nil || out == nil {
+		return
+	}
+	vReach("C16.f.ok")
+	vAssert(vEqBytes(out.Raw, in.Raw), "C16.field-raw")
+	vAssert(vEqBytes(out.RawTBSCertificate, in.TBSCertificate.Raw), "C16.field-raw-tbs")
+	vAssert(vEqBytes(out.RawSubjectPublicKeyInfo, in.TBSCertificate.PublicKey.Raw), "C16.field-raw-spki")
+	vAssert(vEqBytes(out.RawSubject, []byte{0x30, 's'}) && vEqBytes(out.RawIssuer, []byte{0x30, 'i'}), "C16.field-raw-names")
+	vAssert(out.Subject.CommonName == "cn-subject" && out.Issuer.CommonName == "cn-issuer", "C16.field-names")
+	want := s16RightAlign(sig, 8*nsig-pad)
+	vAssert(len(out.Signature) == len(want) && vEqBytes(out.Signature, want), "C16.field-signature-is-the-bit-string-value")
+	vAssert(out.SignatureAlgorithm == row.algo, "C16.field-signature-algorithm")
+	vAssert(out.PublicKeyAlgorithm == x509.RSA, "C16.field-public-key-algorithm")
+	r, isRSA := out.PublicKey.(*rsa.PublicKey)
+	vAssert(isRSA && r.N == w16RSA.n && r.E == 65537, "C16.field-public-key")
+	vAssert(out.Version == ver+1, "C16.field-version")
+	vAssert(out.SerialNumber == serial, "C16.field-serial-number")
+	vAssert(out.NotBefore == nb && out.NotAfter == na, "C16.field-validity")
+	vAssert(len(out.Extensions) == len(chosen), "C16.field-extension-list")
+	if len(out.Extensions) != len(chosen) {
+		return
+	}
+	wantUnhandled := 0
+	for i, k := range chosen {
+		e, ie := out.Extensions[i], in.TBSCertificate.Extensions[i]
+		vAssert(e.Id.Equal(kinds[k].id) && e.Critical == kinds[k].critical && vEqBytes(e.Value, ie.Value), "C16.field-extension-list")
+		switch k {
+		case 0:
+			usage := 0
+			for bit := 0; bit < 9; bit++ {
+				// bit i of the KeyUsage BIT STRING is the most significant bit first (RFC 5280 4.2.1.3)
+				set := ub[bit/8]&(0x80>>uint(bit%8)) != 0
+				usage = vIteInt(set, usage|1<<uint(bit), usage)
+			}
+			vAssert(int(out.KeyUsage) == usage, "C16.field-key-usage")
+			vReach("C16.f.key-usage")
+		case 1:
+			vAssert(out.BasicConstraintsValid, "C16.field-basic-constraints")
+			vAssert(out.IsCA == w16Ext.bc.IsCA && out.MaxPathLen == w16Ext.bc.MaxPathLen, "C16.field-basic-constraints")
+			vAssert(out.MaxPathLenZero == (w16Ext.bc.MaxPathLen == 0), "C16.field-basic-constraints")
+			vReach("C16.f.basic-constraints")
+		case 2:
+			vAssert(vEqBytes(out.SubjectKeyId, w16Ext.keyid), "C16.field-subject-key-id")
+		case 3:
+			vAssert(vEqBytes(out.AuthorityKeyId, w16Ext.keyid), "C16.field-authority-key-id")
+		case 4:
+			vAssert(len(out.ExtKeyUsage) == 1 && out.ExtKeyUsage[0] == x509.ExtKeyUsageClientAuth, "C16.field-extended-key-usage")
+			vAssert(len(out.UnknownExtKeyUsage) == 1 && out.UnknownExtKeyUsage[0].Equal(asn1.ObjectIdentifier{1, 2, 3, 4, 5}), "C16.field-extended-key-usage")
+		case 5:
+			vAssert(len(out.PolicyIdentifiers) == 2 && out.PolicyIdentifiers[0].Equal(asn1.ObjectIdentifier{2, 23, 140, 1, 1}) && out.PolicyIdentifiers[1].Equal(asn1.ObjectIdentifier{1, 2, 3}), "C16.field-policies")
+		case 7, 8:
+			wantUnhandled++
+			found := false
+			for _, u := range out.UnhandledCriticalExtensions {
+				if u.Equal(kinds[k].id) {
+					found = true
+				}
+			}
+			vAssert(found, "C16.unknown-critical-extension-recorded")
+			vReach("C16.f.unhandled-critical")
+		}
+	}
+	vAssert(len(out.UnhandledCriticalExtensions) == wantUnhandled, "C16.only-unknown-critical-extensions-recorded")
 }
